@@ -3,6 +3,7 @@ package verifenv
 import (
 	"errors"
 
+	"google.golang.org/grpc"
 	"google.golang.org/grpc/codes"
 	"google.golang.org/grpc/status"
 	"google.golang.org/protobuf/protoadapt"
@@ -150,3 +151,21 @@ func Switch(i int) {
 	KV, FS, Free, Jobs, PoolRunning = s.kv, s.fs, s.free, s.jobs, s.running
 	curSlot = i
 }
+
+// ---------- grpc server construction (internal/app.New): the server object is a token; what is
+// registered on it is what the loop-back transport dispatches to ----------
+
+// Registered is the service implementation most recently registered on a grpc.Server.
+var Registered any
+
+func GrpcNewServer(opt ...grpc.ServerOption) *grpc.Server { return new(grpc.Server) }
+
+func GrpcChainUnaryInterceptor(interceptors ...grpc.UnaryServerInterceptor) grpc.ServerOption {
+	return nil
+}
+
+func GrpcChainStreamInterceptor(interceptors ...grpc.StreamServerInterceptor) grpc.ServerOption {
+	return nil
+}
+
+func GrpcRegisterService(s *grpc.Server, sd *grpc.ServiceDesc, ss any) { Registered = ss }
